@@ -11,6 +11,7 @@ import (
 
 	"verif/ev"
 	"verif/gen"
+	"verif/liblz"
 	"verif/ref"
 )
 
@@ -145,6 +146,26 @@ func checkC16(c caseC16, rec *ev.Rec) *ev.Failure {
 		var want []byte
 		for _, p := range plains[:upto] {
 			want = append(want, p...)
+		}
+		// the automaton is itself cross-checked: the strict reference decoder
+		// (and, for short sequences, liblzma) must agree with its verdict
+		if rres, rerr := ref.DecodeLZMA2(stream, 4096, false, nil, 0, 0, 0); (rerr != nil) != (bad >= 0) || !bytes.Equal(rres.Out, want) {
+			rec.Incomplete(fmt.Sprintf("oracle disagreement on [%s]: automaton says offending=%d, reference decoder says %v with %q (want %q)", seqString(seq), bad, rerr, rres.Out, want))
+			return nil
+		}
+		if liblz.Available && len(seq) <= 4 {
+			lout, lerr := liblz.DecodeRawLZMA2(stream, 4096)
+			legalEnded := bad < 0 && endAt >= 0
+			// liblzma stops at the end chunk; trailing chunks after it are trailing bytes for it
+			if legalEnded && endAt == len(seq)-1 && (lerr != nil || !bytes.Equal(lout, want)) {
+				rec.Incomplete(fmt.Sprintf("oracle disagreement on [%s]: liblzma rejects a sequence the automaton calls legal: %v", seqString(seq), lerr))
+				return nil
+			}
+			if bad >= 0 && lerr == nil {
+				rec.Incomplete(fmt.Sprintf("oracle disagreement on [%s]: liblzma accepts a sequence the automaton calls illegal", seqString(seq)))
+				return nil
+			}
+			rec.Class("oracle_cross_checked_by_liblzma")
 		}
 		got, err := readLZMA2(stream)
 		switch {
